@@ -367,7 +367,9 @@ class Parser:
             condition = self.parse_expression(pstate, _PREC_IF)
             pstate.expect(_else)
             pstate.advance()
-            else_expr = self.parse_expression(pstate)
+            # right-associative, but not past a comma or a slice colon:
+            # 'x if c else y, z' is the tuple ((x if c else y), z)
+            else_expr = self.parse_expression(pstate, _PREC_IF - 1)
             left_exp = If(condition, then_expr, else_expr)
             did_something = True
         elif next_tag is _dot and _PREC_CALL > min_precedence:
